@@ -176,11 +176,15 @@ func propC20(c *ctx) error {
 					prevCalls = append(prevCalls, prevCall{kw, args, vals, isLit})
 				}
 				callee := kw.name
-				switch r.n(5) {
+				switch r.n(8) {
 				case 0:
 					callee = "t." + kw.name
 				case 1:
 					callee = "(" + kw.name + ")"
+				case 2:
+					callee = "t?." + kw.name // safe navigation is the same selector
+				case 3:
+					callee = "(t?." + kw.name + ")"
 				}
 				call := callee + "(" + strings.Join(args, ", ") + ")"
 				// literal text and EARLIER ${} blocks (without keyword calls) in front of the block that holds the call,
